@@ -772,7 +772,11 @@ def check_zero_is_a_value(c: Check, rule: str, module_names, floor: int, what: s
     from ..report import VERIF_ROOT
     import os
     ix = c.ix
-    n, hits = optional_int_truth_tests(ix, [ix.module(mn) for mn in module_names], with_environs)
+    mods = [ix.module(mn) for mn in module_names]
+    if c.tier == 'thorough':
+        # thorough: every module of the tree (the rule is the same; the modules named are the ones the property rests on)
+        mods = list(ix.all_modules())
+    n, hits = optional_int_truth_tests(ix, mods, with_environs)
     for relpath, line, fkey, expr in hits:
         c.bad(rule, 'zero-is-a-value/%s/%s' % (fkey, expr),
               '`%s` is declared optional and is tested by its truth value: 0 / empty is treated like "absent" (%s)' % (
